@@ -1,5 +1,8 @@
 //! The simulated world: dictated-read transports, the simulated MPD server, the session engine.
+pub mod analysis;
 pub mod capture;
+pub mod typedlists;
 pub mod wirerun;
 pub mod world;
+pub mod scenario;
 pub mod session;
